@@ -49,7 +49,7 @@ Theorem c07_modelled_functions_unchanged_authdata : shapes_hold fn_shapes shapes
 Proof. exact generated_shapes_authdata. Qed.
 
 (* the third-party crates the model represents by hand are pinned at the versions it was written against *)
-Theorem c07_modelled_dependencies_pinned : deps_hold lock_versions cargo_deps = true.
+Theorem c07_modelled_dependencies_pinned : deps_hold repo_lock_present lock_versions harness_lock_versions cargo_deps = true.
 Proof. exact generated_deps. Qed.
 
 Eval vm_compute in "ASSUMPTIONS c07_layout". Print Assumptions c07_layout.
